@@ -115,7 +115,8 @@ func (c *Chain) newLFBTicket(b *block.Block) (ticket *LFBTicket) {
 }
 
 func (c *Chain) verifyLFBTicket(lfbt *LFBTicket) bool {
-	var sharder = node.GetNode(lfbt.SharderID)
+	// only a sharder of the magic block in force for the ticket's round may issue LFB tickets
+	var sharder = c.GetMagicBlock(lfbt.Round).Sharders.GetNode(lfbt.SharderID)
 	if sharder == nil {
 		return false // unknown or missing node
 	}
